@@ -295,11 +295,18 @@ def f4_tables(ctx, L):
     L.check(ok and set(kws) >= {'u8', 'u16', 'u32', 'u64', 'i8', 'i16', 'i32', 'i64', 'float', 'double', 'bytes'},
             'F4.scalar-table', 'prophy.Parser.keywords', pp.rel, 'all builtin type keywords are tokens', str(kws))
     sc = pp.func('Parser._is_type_sizer_compatible')
-    L.check("typename in {type_ + width for type_ in 'ui' for width in ['8', '16', '32', '64']}" in unparse(sc.node),
-            'F4.scalar-table', 'prophy._is_type_sizer_compatible', sc.site(), 'sizer types are exactly the eight integer builtins', '')
+    ints = set(p_ + w for p_ in 'ui' for w in ('8', '16', '32', '64'))
+    tests = [n for n in sc.walk() if isinstance(n, ast.Compare) and len(n.ops) == 1 and isinstance(n.ops[0], ast.In)
+             and unparse(n.left) == sc.params[1] and try_const(n.comparators[0])[0]]
+    L.check(len(tests) == 1 and set(try_const(tests[0].comparators[0])[1]) == ints,
+            'F4.scalar-table', 'prophy._is_type_sizer_compatible', sc.site(), 'sizer types are exactly the eight integer builtins',
+            unparse(tests[0]) if tests else '')
     ts = model.func('topological_sort')
-    L.check("known = set((x + y for x in 'uir' for y in ['8', '16', '32', '64']))" in unparse(ts.node), 'F4.scalar-table',
-            'model.topological_sort.known', ts.site(), 'the sort treats exactly the numeric builtins as already known', '')
+    inits = [n for n in ts.walk() if isinstance(n, ast.Assign) and len(n.targets) == 1 and unparse(n.targets[0]) == 'known']
+    L.check(len(inits) == 1 and try_const(inits[0].value)[0] and isinstance(try_const(inits[0].value)[1], set)
+            and try_const(inits[0].value)[1] == ints | set('r' + w for w in ('32', '64', '8', '16')), 'F4.scalar-table',
+            'model.topological_sort.known', ts.site(), 'the sort treats exactly the numeric builtins as already known',
+            unparse(inits[0]) if inits else '')
     f4_cxx(ctx, L)
 
 
